@@ -189,7 +189,7 @@ func (cm *connManager) handleNewTCPConn(regManager *cj.RegistrationManager, clie
 	deadline := time.Now().Add(timeout)
 	err = clientConn.SetDeadline(deadline)
 	if err != nil {
-		logger.Errorln("error occurred while setting deadline:", err)
+		logger.Errorln("error occurred while setting deadline:", generalizeErr(err))
 	}
 
 	if count < 1 {
@@ -349,7 +349,7 @@ readLoop:
 			// We found our transport! First order of business: disable deadline
 			err = wrapped.SetDeadline(time.Time{})
 			if err != nil {
-				logger.Errorln("error occurred while setting deadline:", err)
+				logger.Errorln("error occurred while setting deadline:", generalizeErr(err))
 			}
 
 			logger.SetPrefix(fmt.Sprintf("[%s] %s ", t.LogPrefix(), reg.IDString()))
@@ -1635,6 +1635,11 @@ func generalizeErr(err error) error {
 		}
 	}
 
-	// if it is not a well known error, return it
+	// If it is not a well known error return it, but never with the connection's addresses: the
+	// text of a net.OpError names both endpoints, one of which is the client.
+	var opErr *net.OpError
+	if errors.As(err, &opErr) && opErr.Err != nil {
+		return opErr.Err
+	}
 	return err
 }
